@@ -118,4 +118,11 @@ def held (p : Recv α) (bs : Bytes) : Bytes :=
 termination_by bs.length
 decreasing_by simp; omega
 
+/-- The same, entered after a header `(len, compressed)` has already been accepted. -/
+def heldBody (p : Recv α) (len : Nat) (compressed : Bool) (bs : Bytes) : Bytes :=
+  match payload p len compressed bs with
+  | .error .incomplete => bs
+  | .error _ => []
+  | .ok _ => held p (bs.drop len)
+
 end Spec.Framing
